@@ -3,18 +3,26 @@ namespace MaddyVerif.Expect.FuncSkelC02
 
 /-- (declaration, fingerprint of its normalised text): comments, layout, local names and log/trace statements do not count -/
 def funcs : List (String × String) := [
+  ("internal/target/queue/queue.go:Queue.Start", "a3de4613def4b988"),
   ("internal/target/queue/queue.go:Queue.deliver", "f9c76cc6fc51885f"),
+  ("internal/target/queue/queue.go:Queue.discardBroken", "3ac6ddf738a3bb6f"),
   ("internal/target/queue/queue.go:Queue.dispatch", "b74f41bd2cc3ee79"),
   ("internal/target/queue/queue.go:Queue.emitDSN", "1e8fbe65a4db35c1"),
   ("internal/target/queue/queue.go:Queue.openMessage", "e860a325c84bd4f8"),
   ("internal/target/queue/queue.go:Queue.readDiskQueue", "d542914f9b1ab176"),
+  ("internal/target/queue/queue.go:Queue.readMessageMeta", "02d7c83723fce1d9"),
   ("internal/target/queue/queue.go:Queue.removeFromDisk", "1d3b0d430214cab6"),
   ("internal/target/queue/queue.go:Queue.storeNewMessage", "b3c9b8f26b968111"),
   ("internal/target/queue/queue.go:Queue.tryDelivery", "91d36a51cc7d0be5"),
   ("internal/target/queue/queue.go:Queue.tryRemoveDanglingFile", "065fbf2203f8153f"),
   ("internal/target/queue/queue.go:Queue.updateMetadataOnDisk", "53af3a3781a30de7"),
+  ("internal/target/queue/queue.go:queueDelivery.Abort", "6ee9c17673a86668"),
+  ("internal/target/queue/queue.go:queueDelivery.AddRcpt", "1c2d0bd0d73f0bb3"),
   ("internal/target/queue/queue.go:queueDelivery.Body", "606384d3a1d9a91b"),
-  ("internal/target/queue/queue.go:queueDelivery.Commit", "b547da9a6ba96ed8")
+  ("internal/target/queue/queue.go:queueDelivery.Commit", "b547da9a6ba96ed8"),
+  ("internal/target/queue/queue.go:type QueueMetadata", "a01e328f233b5521"),
+  ("internal/target/queue/timewheel.go:TimeWheel.Add", "5ef7003f9d35d94b"),
+  ("internal/target/queue/timewheel.go:TimeWheel.Close", "59194037da60a83e")
 ]
 
 end MaddyVerif.Expect.FuncSkelC02
